@@ -6,6 +6,7 @@ pub mod rematch;
 pub mod audit;
 pub mod price;
 pub mod git;
+pub mod out;
 pub mod run;
 
 pub fn dispatch(case: &Value, dir: &Path) -> Value {
@@ -17,6 +18,8 @@ pub fn dispatch(case: &Value, dir: &Path) -> Value {
         Some("hash") => audit::op_hash(case, dir),
         Some("price") => price::op_price(case, dir),
         Some("git") => git::op_git(case, dir),
+        Some("bufw") => out::op_bufw(case),
+        Some("wfail") => out::op_wfail(case, dir),
         Some(op) => json!({"r": "BADCASE", "msg": format!("unknown op {op}")}),
         None => json!({"r": "BADCASE", "msg": "no op"}),
     }
